@@ -802,12 +802,12 @@ func runRec(c *core.Ctx) []core.Obligation {
 			}
 			if f := staticCallee(call.Common()); f != nil && f.Name() == "Append" && f.Pkg != nil && f.Pkg.Pkg.Name() == "json" && f.Signature.Recv() == nil {
 				nDrop++
-				b.addP([]string{"C06"}, core.Violation, "state-dropped:"+shortName(fn), c.InstrPos(call), fmt.Sprintf("%s re-enters Append, which starts from a fresh encoder{}: the pointer depth and the set of visited pointers are lost at every interface boundary, so a cycle through an interface value is never detected", shortName(fn)))
+				b.addP([]string{"C06", "C01"}, core.Violation, "state-dropped:"+shortName(fn), c.InstrPos(call), fmt.Sprintf("%s re-enters Append, which starts from a fresh encoder{}: the pointer depth and the set of visited pointers are lost at every interface boundary, so a cycle through an interface value is never detected", shortName(fn)))
 			}
 		}
 	}
 	if nDrop == 0 {
-		b.addP([]string{"C06"}, core.Discharged, "state-threaded", "-", "no encoder method re-enters Append with a fresh state")
+		b.addP([]string{"C06", "C01"}, core.Discharged, "state-threaded", "-", "no encoder method re-enters Append with a fresh state")
 	}
 	// the same for decoding: a decoder method that re-enters Parse / Unmarshal starts a new
 	// decoder whose depth is 0 — the nesting limit is then counted per interface boundary, not per
